@@ -1,15 +1,22 @@
-(* C09: t-wise sampling - PARTIAL by design.
+(* C09: t-wise sampling.
    Full:    the index/interaction iterators of t_iterator.rs (Model/TIter.v);
-            the result checker every real run is judged by (Spec/TwiseOk.v).
-   Partial: the sampling pipeline is not modelled step by step; proved are the two SAT-guarded steps
-            (cover, complete) over abstract literal lists with the proved SAT model as oracle; the
-            merge/trim statements are documented in Proofs/C09Pipeline.v only.
-   Property theorems only; proofs in Proofs/TIterProof.v, TwiseOkProof.v, C09Pipeline.v;
+            the result checker (Spec/TwiseOk.v);
+            the PLAIN sampler Ddnnf::sample_t_wise (ZippingMerger + SimilarityMerger, Model/TwiseCfg.v,
+            TwiseMerge.v, TwisePipeline.v): C09_sample_t_wise_covers - for every order oracle and every
+            trim choice the model returns a sample accepted by the result checker - for circuits in
+            which no node lists a child twice; with a repeated child the sampler panics
+            (C09_sample_t_wise_repeated_child_refuted, confirmed on the code: finding K36).
+            the FITNESS-GUIDED sampler ExtendedDdnnf::sample_t_wise (Model/TwiseFitness.v) for t <= n:
+            C09_sample_t_wise_fitness_covers; refuted for t > n (finding K11):
+            C09_sample_t_wise_fitness_refuted_t_exceeds_n.
+   Property theorems only; proofs in Proofs/TIterProof.v, TwiseOkProof.v, C09Pipeline.v, Twise*.v;
    status in bin/propcfg/C09.py. *)
 From Coq Require Import List ZArith Bool Lia Permutation Sorted.
-From DD Require Import Model.Circuit Model.Query Model.TIter Model.TwiseSteps Spec.TwiseOk
-  Proofs.Semantics Proofs.CountsA Proofs.QueryDefs Proofs.C03Proof
-  Proofs.TIterProof Proofs.TwiseOkProof Proofs.C09Pipeline Props.C01 Props.C03.
+From DD Require Import Model.Circuit Model.Query Model.TIter
+  Model.TwiseCfg Model.TwiseMerge Model.TwisePipeline Model.TwiseFitness Model.TwiseSteps Spec.TwiseOk
+  Proofs.Semantics Proofs.CountsA Proofs.QueryDefs Proofs.DetCert Proofs.C03Proof
+  Proofs.TIterProof Proofs.TwiseOkProof Proofs.C09Pipeline Proofs.TwiseBase Proofs.TwiseShuffle
+  Proofs.TwiseMain Proofs.TwiseFitMain Props.C01 Props.C03.
 Import ListNotations.
 
 (* ---------------- the iterator (full) ---------------- *)
@@ -184,6 +191,146 @@ Proof.
   split; [apply ex_iff_wfq|]. split; [apply ex_iff_wfq|]. repeat split; vm_compute; reflexivity.
 Qed.
 
-(* C09_or_merge / C09_and_zip / C09_trim / C09_twise_abstract: NOT proved - documented statements
-   at the end of Proofs/C09Pipeline.v.  Finding K11 (KNOWN_FINDINGS.txt) is in the part that is not
-   modelled (AttributeZippingMerger for t larger than the number of features). *)
+(* ---------------- the pipeline of the plain sampler (full) ---------------- *)
+
+(* what the pipeline model uses for TInteractionIter::new(lits, t), t <= len: exactly the iterator's outputs *)
+Theorem C09_tints_is_iterator : forall dbg lits t fuel,
+  (t <= length lits)%nat -> ~ In 0 lits -> (S (length (dec_tuples (length lits) t 0)) < fuel)%nat ->
+  t_interactions dbg fuel lits t = (tints lits t, TDone).
+Proof. exact tints_is_iterator. Qed.
+Print Assumptions C09_tints_is_iterator.
+
+(* the thread-RNG shuffle inside Candidate::is_t_wise_covered_by cannot change its answer *)
+Theorem C09_shuffle_irrelevant : forall (S : sample) (lits lits' : list Z) (k : nat),
+  NoDup lits -> Permutation lits lits' ->
+  forallb (s_covers S) (tints lits' k) = forallb (s_covers S) (tints lits k).
+Proof. exact sim_covered_perm. Qed.
+Print Assumptions C09_shuffle_irrelevant.
+
+(* Ddnnf::sample_t_wise (ZippingMerger + SimilarityMerger, trim_and_resample,
+   complete_partial_configs; cached SAT states as in the Rust): for every WFQ circuit over n >= 1
+   features with a model and without a node that lists a child twice, every t (t >= 1 is not
+   needed: for t = 0 the sample is merely non-empty), EVERY iteration
+   order of the hash sets of cross interactions (ord_int), every order of equally long samples after
+   sort_unstable (ord_sort), every shuffle of the literals to resample (ord_shuf) and EVERY choice of
+   the configurations that are trimmed (trim_pick: the f64 ranks are abstracted by this oracle), the
+   sampler does not panic and returns ResultWithSample S with twise_ok C n t S = true. *)
+Theorem C09_sample_t_wise_covers : forall (C : circuit) (n t : nat),
+  WFQ C n -> nodup_children C = true ->
+  forall (ord_int : nat -> nat -> nat -> list cfg -> list cfg)
+         (ord_sort : nat -> list sample -> list sample)
+         (trim_pick : list (list Z) -> list bool)
+         (ord_shuf : list Z -> list Z),
+  (forall a b c l, Permutation (ord_int a b c l) l) ->
+  (forall a l, Permutation (ord_sort a l) l) ->
+  (forall l, Permutation (ord_shuf l) l) ->
+  (1 <= n)%nat -> 0 < root_count C ->
+  exists S, sample_t_wise (build C n) t ord_int ord_sort trim_pick ord_shuf = Some (WithSample S) /\
+            twise_ok C n t (map c_lits (s_iter S)) = true.
+Proof. exact sample_t_wise_covers. Qed.
+Print Assumptions C09_sample_t_wise_covers.
+
+(* the same in semantic terms (C09_twise_ok_sound_complete): only complete configurations that are
+   models, every valid interaction of min(t,n) literals inside some configuration *)
+Theorem C09_sample_t_wise_sound_complete : forall (C : circuit) (n t : nat),
+  WFQ C n -> nodup_children C = true ->
+  forall ord_int ord_sort trim_pick ord_shuf,
+  (forall a b c l, Permutation (ord_int a b c l) l) ->
+  (forall a l, Permutation (ord_sort a l) l) ->
+  (forall l, Permutation (ord_shuf l) l) ->
+  (1 <= n)%nat -> 0 < root_count C ->
+  exists r, sample_t_wise (build C n) t ord_int ord_sort trim_pick ord_shuf = Some r /\
+            (forall c, In c (sres_configs r) -> In c (Models C n)) /\
+            (forall I, valid_interaction C n t I -> exists c, In c (sres_configs r) /\ incl I c).
+Proof.
+  intros C n t HQ Hd oi os tp sh H1 H2 H3 Hn Hrc.
+  destruct (sample_t_wise_covers C n t HQ Hd oi os tp sh H1 H2 H3 Hn Hrc) as [S [HS Hok]].
+  exists (WithSample S). split; [exact HS|]. now apply twise_ok_sound_complete.
+Qed.
+Print Assumptions C09_sample_t_wise_sound_complete.
+
+(* Without the hypothesis on repeated children the statement is FALSE: x1 /\ x2 /\ true /\ true with
+   the true node listed twice is a WFQ circuit on which the sampler panics for every oracle
+   (remove_unneeded: `expect("Sample does not exist!")` on the second occurrence).  Confirmed on the
+   code with the c2d file  nnf 4 4 2 / A 0 / L 1 / L 2 / A 4 0 0 1 2  (finding K36). *)
+Definition ex_dup : circuit := [TrueN; Lit 1; Lit 2; And [2; 1; 0; 0]%nat].
+Theorem C09_sample_t_wise_repeated_child_refuted :
+  exists C n, WFQ C n /\ (1 <= n)%nat /\ 0 < root_count C /\ nodup_children C = false /\
+    forall t ord_int ord_sort trim_pick ord_shuf,
+      sample_t_wise (build C n) t ord_int ord_sort trim_pick ord_shuf = None.
+Proof.
+  exists ex_dup, 2%nat. split; [apply check_wf_WFQ; vm_compute; reflexivity|].
+  split; [lia|]. split; [vm_compute; reflexivity|]. split; [vm_compute; reflexivity|].
+  intros t oi os tp sh. vm_compute. reflexivity.
+Qed.
+Print Assumptions C09_sample_t_wise_repeated_child_refuted.
+
+(* non-vacuity: x1 <-> x2 satisfies the hypotheses; with the identity oracles and nothing trimmed
+   the model returns the two models, with reversing oracles and everything trimmed as well *)
+Example C09_sample_t_wise_ex :
+  WFQ ex_iff 2 /\ nodup_children ex_iff = true /\ 0 < root_count ex_iff /\
+  option_map sres_configs
+    (sample_t_wise (build ex_iff 2) 2 (fun _ _ _ l => l) (fun _ l => l) (fun _ => []) (fun l => l))
+  = Some [[-1; -2]; [1; 2]] /\
+  option_map (fun r => twise_ok ex_iff 2 2 (sres_configs r))
+    (sample_t_wise (build ex_iff 2) 2 (fun _ _ _ l => rev l) (fun _ l => rev l)
+                   (fun l => map (fun _ => true) l) (fun l => rev l))
+  = Some true.
+Proof.
+  split; [apply ex_iff_wfq|]. split; [vm_compute; reflexivity|]. split; [apply ex_iff_wfq|].
+  split; vm_compute; reflexivity.
+Qed.
+
+(* ---------------- the fitness-guided variant ---------------- *)
+
+(* ExtendedDdnnf::sample_t_wise (Model/TwiseFitness.v: AttributeZippingMerger, AttributeSimilarityMerger,
+   cover_with_caching_sorted, trim_and_resample, complete_partial_configs_optimal = calc_best_config of
+   C20; objective values in Z): for every WFQ circuit without a repeated child, n >= 1 features,
+   root_count > 0, EVERY vector of objective values, every t <= n, every trim choice and every
+   shuffle, the sampler returns ResultWithSample S with twise_ok C n t S = true.  [full for t <= n] *)
+Theorem C09_sample_t_wise_fitness_covers : forall (C : circuit) (n t : nat) (vals : list Z),
+  WFQ C n -> nodup_children C = true ->
+  forall (trim_pick : list (list Z) -> list bool) (ord_shuf : list Z -> list Z),
+  (forall l, Permutation (ord_shuf l) l) ->
+  (1 <= n)%nat -> 0 < root_count C -> (t <= n)%nat ->
+  exists S, sample_t_wise_fit (build C n) t vals trim_pick ord_shuf = Some (WithSample S) /\
+            twise_ok C n t (map c_lits (s_iter S)) = true.
+Proof. exact sample_t_wise_fit_covers. Qed.
+Print Assumptions C09_sample_t_wise_fitness_covers.
+
+(* ... and it is FALSE for t > n (finding K11): on (x1 | -x1) & (x2 | -x2) - what the loader makes of
+   the d4 file `t 1 0` with 2 features - with t = 3 and objective values 1 1 the sampler answers
+   [1 2; -1 -2]: the valid interactions {1,-2} and {-1,2} are in no configuration.  The and-merge
+   draws the parts of a cross interaction from the literal lists with sizes min(len,k), min(len,t-k):
+   for t > n each candidate holds both polarities of a feature.  (The plain sampler covers them:
+   C09_sample_t_wise_covers has no bound on t.) *)
+Definition ex_free2 : circuit := [Lit 1; Lit (-1); Or [0; 1]%nat; Lit 2; Lit (-2); Or [3; 4]%nat; And [2; 5]%nat].
+Theorem C09_sample_t_wise_fitness_refuted_t_exceeds_n :
+  exists C n t vals (trim_pick : list (list Z) -> list bool) (ord_shuf : list Z -> list Z),
+    WFQ C n /\ nodup_children C = true /\ (1 <= n)%nat /\ 0 < root_count C /\ (n < t)%nat /\
+    (forall l, Permutation (ord_shuf l) l) /\
+    exists S, sample_t_wise_fit (build C n) t vals trim_pick ord_shuf = Some (WithSample S) /\
+              map c_lits (s_iter S) = [[1; 2]; [-1; -2]] /\
+              twise_ok C n t (map c_lits (s_iter S)) = false /\
+              twise_first_uncovered C n t (map c_lits (s_iter S)) = Some [1; -2].
+Proof.
+  exists ex_free2, 2%nat, 3%nat, [1; 1], (fun _ => []), (fun l => l).
+  split; [apply check_wf_WFQ; vm_compute; reflexivity|]. split; [vm_compute; reflexivity|].
+  split; [lia|]. split; [vm_compute; reflexivity|]. split; [lia|]. split; [intros l; apply Permutation_refl|].
+  eexists. split; [vm_compute; reflexivity|]. repeat split; vm_compute; reflexivity.
+Qed.
+Print Assumptions C09_sample_t_wise_fitness_refuted_t_exceeds_n.
+
+(* non-vacuity: the same circuit with t = 2 <= n *)
+Example C09_sample_t_wise_fitness_ex :
+  WFQ ex_free2 2 /\ nodup_children ex_free2 = true /\ 0 < root_count ex_free2 /\
+  option_map sres_configs (sample_t_wise_fit (build ex_free2 2) 2 [1; 1] (fun _ => []) (fun l => l))
+  = Some [[1; 2]; [-1; -2]; [1; -2]; [-1; 2]].
+Proof.
+  split; [apply check_wf_WFQ; vm_compute; reflexivity|]. split; [vm_compute; reflexivity|].
+  split; vm_compute; reflexivity.
+Qed.
+
+(* C09_trim / C09_or_merge / C09_and_zip of the design are the lemmas trim_ok (Proofs/TwiseMain.v),
+   or_merge_spec (TwiseOr.v), merge_cov (TwiseAnd.v); for the fitness variant merge_fit_cov
+   (TwiseFitMerge.v), or_merge_fit_spec (TwiseFitMain.v). *)
